@@ -1,6 +1,7 @@
 package main
 
 import (
+	"errors"
 	"fmt"
 	"sort"
 
@@ -15,6 +16,7 @@ type memLedger struct {
 	state map[string][]byte
 	calls []c12Write
 	reads int
+	fail  string // the next read of this key fails (a ledger read can fail: peer trouble, a state database time-out)
 }
 
 type c12Write struct {
@@ -25,6 +27,10 @@ type c12Write struct {
 
 func (m *memLedger) GetState(key string) ([]byte, error) {
 	m.reads++
+	if m.fail != "" && m.fail == key {
+		m.fail = ""
+		return nil, errors.New("ledger read failed")
+	}
 	return m.state[key], nil
 }
 
@@ -86,6 +92,17 @@ func c12Run(led map[string][]byte, hist []c12Op) c12Case {
 		case "bget":
 			v, _ := bs.GetState(o.Key)
 			outs = append(outs, c12Out{Kind: "val", Val: v})
+		case "failget":
+			// a read that fails if it reaches the ledger (it does not when a cache answers). Either way it is no step of the
+			// model's history: a failed read must leave nothing behind, a cached one is an ordinary read whose value is
+			// checked by the reads around it.
+			ml.fail = o.Key
+			if tx != nil {
+				_, _ = tx.GetState(o.Key)
+			} else {
+				_, _ = bs.GetState(o.Key)
+			}
+			ml.fail = ""
 		case "put":
 			if tx != nil {
 				_ = tx.PutState(o.Key, o.Val)
@@ -170,8 +187,14 @@ func c12Ledger(m map[string][]byte) string {
 }
 
 func c12Term(cs c12Case) string {
-	ops := make([]string, len(cs.Hist))
-	for i, o := range cs.Hist {
+	var hist []c12Op
+	for _, o := range cs.Hist {
+		if o.Op != "failget" {
+			hist = append(hist, o)
+		}
+	}
+	ops := make([]string, len(hist))
+	for i, o := range hist {
 		switch o.Op {
 		case "get":
 			ops[i] = fmt.Sprintf("CGet %d", c12KeyN(o.Key))
@@ -225,6 +248,7 @@ func c12Nontrivial(h []c12Op) bool {
 
 func genC12(c *Ctx) error {
 	c.Notes["keys"] = c12Keys
+	c.Notes["failing_reads"] = "3 in 100 steps of the random histories are reads that fail if they reach the ledger (no step of the model: they must leave nothing behind)"
 	ledgers := []map[string][]byte{
 		{},
 		{"a": []byte("L")},
@@ -280,6 +304,8 @@ func genC12(c *Ctx) error {
 			k := c12Keys[c.Rng.Intn(len(c12Keys))]
 			v := vals[c.Rng.Intn(len(vals))]
 			switch r := c.Rng.Intn(100); {
+			case r < 3:
+				h = append(h, c12Op{Op: "failget", Key: k})
 			case r < 30:
 				h = append(h, c12Op{Op: "get", Key: k})
 			case r < 50:
